@@ -80,7 +80,10 @@ def role_of(op) -> str | None:
     if op.name in ("dart.operation", "dart.schedule", "snax_stream.streaming_region"):
         acc = op.properties.get("accelerator")
         if acc is not None and acc.data == "snax_xdma":
-            inner = op.regions[0].block.first_op.regions[0].block.first_op
+            first = op.regions[0].block.first_op
+            if not first.regions:
+                return "compute"  # kernel-less transfer: judged as "exactly one of the two cores" by C14, see there
+            inner = first.regions[0].block.first_op
             sig = (inner.name, str(inner.operands[0].type), str(inner.results[0].type))
             if sig in XDMA_EXTENSION_KERNELS:
                 return "dm"
